@@ -145,6 +145,27 @@ CHECKS['C19'] = dict(text="Theorems over the Progress model (every interleaving 
   "without keep_alive, 4 start methods. Partial: tqdm's rendering and the update_total path for unknown lengths are observed, not "
   "modelled; the tqdm lock restoration is checked under C05.", ref="5/C19",
   technique="Coq proof (counter invariant over all interleavings) + kernel differential + bar-update oracle")
+CHECKS['C05'] = dict(text="Theorems: (shutdown ledger whose effects are read off pool.terminate / _stop_handler_threads / __exit__ / the "
+  "exception handlers of imap_unordered) after terminate(), the end of the with-block, stop_and_join() without keep_alive, or any "
+  "failing / interrupted map call -- after ANY history of pool operations -- no worker and no helper thread is left, hence repeating "
+  "such cycles accumulates nothing; (handler-slot model of mpire/signal.py, bodies read off the source) every program of nested "
+  "DelayedKeyboardInterrupt / DisableKeyboardInterruptSignal blocks, signal arrivals and exceptions leaves the SIGINT handler as it "
+  "found it. Tie: structural kernels + Spec lemmas; end to end on the UNINSTRUMENTED library: processes running 3-4 pool life cycles "
+  "twice, each pool left through a different exit cause (13 causes) x start methods x insights / progress bar / lifespan: children, "
+  "helper threads, SIGINT handler, tqdm lock after every cycle; descriptors compared between the two passes. Partial: the ledger is a "
+  "coarse abstraction (counts, not identities); processes, threads and descriptors themselves are observed, not modelled.", ref="5/C05",
+  technique="Coq proof (ledger invariant over all operation histories; handler-slot restoration by induction over programs) + life-cycle leak oracle")
+CHECKS['C17'] = dict(text="Theorems: (handler-slot model) a SIGINT is delivered at once, or deferred by DelayedKeyboardInterrupt and delivered "
+  "exactly once when the block is left, or ignored while a worker is being forked -- the handler slot is restored in every case; "
+  "(ledger) a KeyboardInterrupt that reaches a map call at any point goes through terminate() before it leaves the call, after which no "
+  "worker and no helper thread is left; (Fail model) an interrupted call never returns a partial result. Tie: structural kernels "
+  "(signal.py bodies, the three exception handlers of imap_unordered, worker SIG_IGN) + Spec lemmas; end to end: a recording run "
+  "enumerates every point of the library at which CPython can run a signal handler in the main thread during a call (function entries, "
+  "returns of C calls); SIGINT is delivered exactly there (setprofile injection, deterministic, replayable) and at random instants, to "
+  "the process or its group: KeyboardInterrupt with nothing alive, or a complete correct result; no hang, no other exception, handler "
+  "unchanged. Partial: delivery at backward jumps is only covered by the random instants; kept-alive pools are judged after leaving "
+  "the pool (their workers outlive a call by design).", ref="5/C17",
+  technique="Coq proof (handler-slot and ledger models, failure-path model) + exhaustive signal-point injection")
 PENDING = {}
 props = [json.loads(l) for l in open(os.path.join(V, 'properties.jsonl'))]
 m = dict(version=1,
